@@ -515,13 +515,13 @@ func runC06(tr *vh.Trace, n int, seed uint64, shapesFile, stacksFile string, max
 		// one jumbogram stack
 		if mine() {
 			sc++
+			e := &layers.Ethernet{SrcMAC: mac(r), DstMAC: mac(r), EthernetType: layers.EthernetTypeIPv6}
+			i6 := genIPv6(r, 17, false, nil)
+			u := genUDP(r)
+			setNet(u, i6)
+			roundTrip(tr, sc, &caseT{src: "stack", name: "big:Ethernet/IPv6/UDP:70001", ls: []gopacket.SerializableLayer{e, i6, u},
+				payload: genPayload(r, 70001)}, st)
 		}
-		e := &layers.Ethernet{SrcMAC: mac(r), DstMAC: mac(r), EthernetType: layers.EthernetTypeIPv6}
-		i6 := genIPv6(r, 17, false, nil)
-		u := genUDP(r)
-		setNet(u, i6)
-		roundTrip(tr, sc, &caseT{src: "stack", name: "big:Ethernet/IPv6/UDP:70001", ls: []gopacket.SerializableLayer{e, i6, u},
-			payload: genPayload(r, 70001)}, st)
 	}
 
 	// (a) layers obtained by decoding fixtures and mutations
